@@ -64,6 +64,13 @@ def explore(ctx, scale=1.0):
         t = C10.rand_tree(rng, rng.randint(2, 9))
         src = "(" + " ".join(C10.render(rng, t)) + ")"
         docs.append((rng.choice(["CLASS\n  EXPRESSION %s\nEND", "LAYER\n  FILTER %s\nEND", "CLASS\n  TEXT %s\nEND"]) % src, "expression"))
+    # the enumerated word "end" (GEOMTRANSFORM) in every case, quoted, in nested blocks followed by more keywords: printed
+    # bare it would close the block (seed C04-n8)
+    for w in ("end", "END", "End", "eNd"):
+        for q in ('"', "'"):
+            docs.append((f'LAYER\n CLASS\n STYLE\n GEOMTRANSFORM {q}{w}{q}\n SYMBOL 1\n END\n NAME "c"\n END\n NAME "l"\nEND', "end-word"))
+            docs.append((f'LAYER\n GEOMTRANSFORM {q}{w}{q}\n NAME "l"\nEND', "end-word"))
+            docs.append((f'MAP\n LAYER\n CLASS\n STYLE\n GEOMTRANSFORM {q}{w}{q}\n COLOR 1 2 3\n END\n END\n END\n NAME "m"\nEND', "end-word"))
     P = trees.parser(False, False)
     n_sets = 40 if ctx.thorough else 6
     pp_cases, rl_cases = [], []
@@ -92,6 +99,10 @@ def explore(ctx, scale=1.0):
             try:
                 d1 = MapfileToDict().transform(P.parse(t))
             except Exception as ex:
+                if kind == "end-word":
+                    # none of the documented exclusions applies to these documents: t = dumps(d) must load, or dumps(loads(t)) != t
+                    ctx.violation(f"formatted-text-unloadable:{type(ex).__name__}", "dumps produced text t that loads rejects, so dumps(loads(t)) cannot equal t", dict(rep, first=t[:2000]))
+                    continue
                 ctx.count(f"first pass output unparseable ({type(ex).__name__}) — C01/C06 territory")
                 continue
             if len(rl_cases) < (4000 if ctx.thorough else 600):
